@@ -90,6 +90,7 @@ type ContractDB struct {
 	Guards []GuardDecl
 	Regions map[string][]string
 	PurePrefixes []string // packages whose functions/interface methods are assumed not to modify tracked state
+	Tables []*TableDecl
 }
 
 type GuardDecl struct {
@@ -103,7 +104,7 @@ func NewContractDB() *ContractDB {
 	return &ContractDB{Funcs: map[string]*FuncContract{}, Specs: map[string]*SpecFunc{}, Preds: map[string]*Pred{}, Lemmas: map[string]*Lemma{}, Regions: map[string][]string{}}
 }
 
-var topKW = map[string]bool{"spec": true, "pred": true, "def": true, "lemma": true, "axiom": true, "func": true, "assumed": true, "interface": true, "region": true, "guarded": true, "props": true, "purepkg": true}
+var topKW = map[string]bool{"spec": true, "pred": true, "def": true, "lemma": true, "axiom": true, "func": true, "assumed": true, "interface": true, "region": true, "guarded": true, "props": true, "purepkg": true, "table": true}
 var clauseKW = map[string]bool{"requires": true, "ensures": true, "modifies": true, "nopanic": true, "nooverflow": true, "inline": true, "loop": true, "use": true, "mode": true, "by": true, "prop": true, "pure": true, "ghost": true, "nolocks": true}
 
 type rawItem struct {
@@ -221,6 +222,12 @@ func (db *ContractDB) LoadContracts(path, pkgPath string) error {
 			props = strings.Fields(it.head)
 		case "purepkg":
 			db.PurePrefixes = append(db.PurePrefixes, strings.Fields(it.head)...)
+		case "table":
+			td, err := parseTableDecl(it.head, pkgPath, props)
+			if err != nil {
+				return fmt.Errorf("%s: %v", where, err)
+			}
+			db.Tables = append(db.Tables, td)
 		case "spec", "pred", "def":
 			// name(params) [ret] = body
 			eq := strings.Index(it.head, "=")
